@@ -19,7 +19,7 @@ CASES = {'quick': N_ENUM + len(TXN_FORMS) + 1500, 'thorough': N_ENUM + len(TXN_F
 GATES = {
     'quick': {'evaluations': 60000, 'cost_paths': 25000, 'cost_forms_accepted': 90, 'documented_rejections_observed': 1500,
               'txn_paths': 1500, 'generic_assignments': 3000, 'generic_props_seen': 60, 'reparse_checks': 20000},
-    'thorough': {'evaluations': 400000, 'cost_paths': 60000, 'generic_props_seen': 70},
+    'thorough': {'evaluations': 300000, 'cost_paths': 40000, 'generic_props_seen': 70},
 }
 RULE = ('three workloads. (1) cost group, exhaustive: from each of 18 concrete forms x 6 date/label/merge suffixes every assignment path '
         'of length 1, 2 (12 steps: each of number_per/number_total/currency/date/label/merge := None|value) and 3 (group properties only) '
